@@ -355,6 +355,8 @@ func init() {
 			}
 			return []Val{s.freshVal(boolT, "evicted")}
 		}
+		L["(*golang.org/x/sync/singleflight.Group).Do"] = nil
+		delete(L, "(*golang.org/x/sync/singleflight.Group).Do")
 		L["(*golang.org/x/sync/singleflight.Group).Forget"] = func(s *State, site ssa.Instruction, a []Val) []Val { return nil }
 	})
 }
